@@ -27,7 +27,14 @@
 //                                    attribute sets on the same Interface object, build() of the communicator
 //              n<S>-<T>              a new Interface object built with the new sets, then build() of the same
 //                                    communicator object again WITHOUT free() (fixes/C05_build_twice)
-//            e.g. `fb.r5-10a.ff.n3-3.b`; at most 8 communications and 3 rebuilds
+//              m<k>                  the user assigns new values between two communications: every component (l,j) of
+//                                    every container of every rank becomes v + 1000003*(k+1) + 7*l + j   (k = 0..9)
+//              l<r>                  rank r is LATE for its next communication: it enters it only when all other ranks
+//                                    have finished the communications of this build, or after --lag-us microseconds
+//                                    (a schedule; the model ignores it).  With a correct sendRecv the others block until r
+//                                    arrives; a sendRecv that returns with a send still pending lets them run ahead and
+//                                    overwrite (m<k>, next gather) or release the buffer the late rank has yet to read.
+//            e.g. `fb.r5-10a.ff.n3-3.b`, `l1.f.m2.f`; at most 8 communications and 3 rebuilds
 //   e = <s>,<r>,<g>,<l>,<attr>,<pub>    entry of set s (0 source, 1 target) on rank r: global g, local l
 //                                         (entries with s=1 for a one-set rank are ignored)
 //
@@ -56,7 +63,19 @@
 
 #include "hcommon_mpi.hh"
 
+// request discipline observed through the profiling interface (harness/pmpi_c05.cc)
+extern "C" void dv_req_case_begin();
+extern "C" const char* dv_req_case_end();
+extern "C" void dv_req_comm(long idx);
+extern "C" void dv_req_checkpoint(const char* where);
+extern "C" long dv_req_sends();
+extern "C" long dv_req_recvs();
+extern "C" long dv_req_audits();
+
 using namespace dv;
+
+static MPI_Comm gSide = MPI_COMM_NULL;  // side channel of the harness (late-rank tokens), never seen by the code under test
+static long gLagUs = 4000;
 
 enum Flags { owner = 0, overlap = 1, copy = 2, ghost = 3 };
 typedef Dune::ParallelLocalIndex<Flags> LocalIndex;
@@ -229,7 +248,9 @@ struct Phase {  // one build of the communicator and the communications that fol
   int S = 0, T = 0;
   bool Salt = false, Talt = false;
   bool freeFirst = true;  // r: free() + Interface::free() before building again; n: build again without free()
-  std::string rounds;     // over {f,b}
+  std::string rounds;     // over {f,b}: the communications
+  struct Step { char kind; int arg; };  // f, b, m (arg = k), l (arg = rank)
+  std::vector<Step> steps;
 };
 struct Case {
   int P = 0;
@@ -330,7 +351,8 @@ static bool parseCase(const std::string& line, Case& c, std::string& why) {
   {
     c.phases.assign(1, ph0);
     size_t nComm = 0;
-    if (hw[10].empty() || hw[10].size() > 60) { why = "rounds"; return false; }
+    if (hw[10].empty() || hw[10].size() > 120) { why = "rounds"; return false; }
+    size_t nExtra = 0;
     for (auto& item : split(hw[10], '.')) {
       if (item.empty()) { why = "rounds"; return false; }
       if (item[0] == 'r' || item[0] == 'n') {
@@ -339,13 +361,21 @@ static bool parseCase(const std::string& line, Case& c, std::string& why) {
         ph.freeFirst = item[0] == 'r';
         if (st.size() != 2 || !mask(st[0], ph.S, ph.Salt) || !mask(st[1], ph.T, ph.Talt)) { why = "rounds"; return false; }
         c.phases.push_back(ph);
+      } else if (item[0] == 'm' || item[0] == 'l') {
+        long v;
+        if (!num(item.substr(1), 0, item[0] == 'm' ? 9 : c.P - 1, v)) { why = "rounds"; return false; }
+        c.phases.back().steps.push_back(Phase::Step{item[0], (int)v});
+        ++nExtra;
       } else {
-        for (char ch : item) if (ch != 'f' && ch != 'b') { why = "rounds"; return false; }
+        for (char ch : item) {
+          if (ch != 'f' && ch != 'b') { why = "rounds"; return false; }
+          c.phases.back().steps.push_back(Phase::Step{ch, 0});
+        }
         c.phases.back().rounds += item;
         nComm += item.size();
       }
     }
-    if (nComm == 0 || nComm > 8 || c.phases.size() > 4) { why = "rounds"; return false; }
+    if (nComm == 0 || nComm > 8 || c.phases.size() > 4 || nExtra > 12) { why = "rounds"; return false; }
   }
   c.set.assign(c.P, {});
   for (auto& segRaw : split(body, ';')) {
@@ -531,6 +561,8 @@ template <class Data> static Result runCase(const Case& c0) {
 
   Dune::BufferedCommunicator bc;
   Dune::DatatypeCommunicator<PIS> dc;
+  // destroyed before the communicators and the containers: the last look at the buffers of pending sends
+  struct FinalLook { ~FinalLook() { dv_req_checkpoint("the end of the communicator's life"); } } finalLook;
   gAdd = c.add;
   auto buildComm = [&](const Phase& ph) {
     const AnySet S = ph.Salt ? altTable()[ph.S] : setTable[ph.S], T = ph.Talt ? altTable()[ph.T] : setTable[ph.T];
@@ -539,19 +571,65 @@ template <class Data> static Result runCase(const Case& c0) {
     else { if (!c.c1) bc.build(srcData, tgtData, *iface); else bc.template build<Data>(*iface); }
   };
 
-  long nCalls = 0, nOpen = 0;
+  long nCalls = 0, nOpen = 0, commIdx = 0;
   for (size_t k = 0; k < c.phases.size(); ++k) {
   const Phase& ph = c.phases[k];
   if (k > 0) {
     // life cycle: the same communicator object is built again for other attribute sets
+    dv_req_checkpoint("the rebuild of the communicator");
     if (ph.freeFirst) { if (c.dt) dc.free(); else bc.free(); }
     if (!buildInterface(ph, false)) return stopInterfaceWrong();
   }
   buildComm(ph);
-  for (char dir : ph.rounds) {
+  // late ranks: tokens "I have finished the communications of this build" travel on the harness's side channel
+  std::vector<int> lagItems;  // rank of every l item of this phase, in order
+  for (auto& st : ph.steps) if (st.kind == 'l') lagItems.push_back(st.arg);
+  std::vector<int> lagGot(lagItems.size(), 0);
+  size_t lagSeen = 0;
+  for (const Phase::Step& step : ph.steps) {
+    if (step.kind == 'm') {
+      auto f = [&](long v, long l, long j) { return v + 1000003L * (step.arg + 1) + 7 * l + j; };
+      for (int r = 0; r < P; ++r)
+        for (int kk = 0; kk < 2; ++kk) {
+          if (kk == 1 && c.oneC(r)) continue;
+          Shadow& s = sh[r][kk];
+          for (size_t l = 0; l < s.v.size(); ++l)
+            for (size_t j = 0; j < s.v[l].size(); ++j) {
+              s.v[l][j] = f(s.v[l][j], (long)l, (long)j);
+              for (auto& x : s.cand[l][j]) x = f(x, (long)l, (long)j);
+            }
+        }
+      for (int kk = 0; kk < (one ? 1 : 2); ++kk)
+        for (size_t l = 0; l < sh[rank][kk].v.size(); ++l)
+          for (size_t j = 0; j < sh[rank][kk].v[l].size(); ++j) {
+            long& x = at(data[kk], (long)l, (int)j);
+            x = f(x, (long)l, (long)j);
+          }
+      continue;
+    }
+    if (step.kind == 'l') {
+      size_t li = lagSeen++;
+      if (step.arg == rank && P > 1) {
+        double t0 = MPI_Wtime();
+        while (lagGot[li] < P - 1 && (MPI_Wtime() - t0) * 1e6 < (double)gLagUs) {
+          int flag = 0;
+          MPI_Status st;
+          PMPI_Iprobe(MPI_ANY_SOURCE, 1000 + (int)li, gSide, &flag, &st);
+          if (flag) {
+            int tok;
+            PMPI_Recv(&tok, 1, MPI_INT, st.MPI_SOURCE, 1000 + (int)li, gSide, MPI_STATUS_IGNORE);
+            ++lagGot[li];
+          } else usleep(30);
+        }
+        stat(lagGot[li] == P - 1 ? "late_rank_everybody_else_had_finished" : "late_rank_waited_full_time");
+      }
+      continue;
+    }
+    const char dir = step.kind;
     const bool fwd = dir == 'f';
     gLog.clear();
     sLog.clear();
+    dv_req_comm(commIdx++);
     if (c.dt) { if (fwd) dc.forward(); else dc.backward(); }
     else if constexpr (!std::is_same<Data, VV>::value) {
       typedef Dune::CopyGatherScatter<Data> CGS;
@@ -662,6 +740,23 @@ template <class Data> static Result runCase(const Case& c0) {
     }
     obs.push_back(o);
   }
+  // end of the communications of this build: tell the late ranks, collect what the own late items did not consume
+  if (!lagItems.empty() && P > 1) {
+    std::vector<MPI_Request> tq;
+    static int token = 1;
+    for (size_t li = 0; li < lagItems.size(); ++li)
+      if (lagItems[li] != rank) {
+        tq.emplace_back();
+        PMPI_Isend(&token, 1, MPI_INT, lagItems[li], 1000 + (int)li, gSide, &tq.back());
+      }
+    for (size_t li = 0; li < lagItems.size(); ++li)
+      if (lagItems[li] == rank)
+        for (; lagGot[li] < P - 1; ++lagGot[li]) {
+          int tok;
+          PMPI_Recv(&tok, 1, MPI_INT, MPI_ANY_SOURCE, 1000 + (int)li, gSide, MPI_STATUS_IGNORE);
+        }
+    if (!tq.empty()) PMPI_Waitall((int)tq.size(), tq.data(), MPI_STATUSES_IGNORE);
+  }
   }
   res.impl = join(obs.begin(), obs.end(), ";");
   res.oracle = fail.empty() ? (nontrivial ? "ok" : "ok trivial") : "FAIL " + fail;
@@ -721,11 +816,65 @@ static Result exec(const std::string& line) {
     stat(c.S == c.T ? "sets_S_eq_T" : "sets_S_ne_T");
     stat(c.ign ? "ignorePublic" : "publicOnly");
   }
-  switch (c.pay) {
-    case 0: return runCase<S1>(c);
-    case 1: return runCase<S3>(c);
-    default: return runCase<VV>(c);
+  if (rank == 0) {
+    size_t nm = 0, nl = 0;
+    for (auto& ph : c.phases) for (auto& st : ph.steps) { nm += st.kind == 'm'; nl += st.kind == 'l'; }
+    stat("items_new_values_between_communications", (long)nm);
+    stat("items_late_rank", (long)nl);
+    if (nl) stat("cases_with_late_rank");
+    if (nm) stat("cases_with_new_values");
+    // is the number of completed sends sensitive to the bound of the send-wait loop?  (a neighbour that is sent to sits at a
+    // position >= the number of neighbours that are received from, on some rank, in some communication of the case)
+    bool sens = false;
+    Case cc = c;
+    for (auto& ph : c.phases) {
+      cc.S = ph.S;
+      cc.T = ph.T;
+      for (int fwd = 0; fwd < 2; ++fwd) {
+        if (ph.rounds.find(fwd ? 'f' : 'b') == std::string::npos) continue;
+        for (int r = 0; r < c.P; ++r) {
+          std::vector<std::pair<bool, bool>> nb;  // per neighbour (rank order): sends to it, receives from it
+          for (int q = 0; q < c.P; ++q) {
+            bool a = !sharedDef(cc, r, q).empty(), b = !sharedDef(cc, q, r).empty();
+            if (a || b) nb.push_back(fwd ? std::make_pair(a, b) : std::make_pair(b, a));
+          }
+          size_t nRecv = 0;
+          for (auto& x : nb) nRecv += x.second;
+          for (size_t i = nRecv; i < nb.size(); ++i) sens = sens || nb[i].first;
+        }
+      }
+    }
+    if (sens && !c.dt) stat("cases_send_beyond_number_of_receives");
   }
+  dv_req_case_begin();
+  switch (c.pay) {
+    case 0: res = runCase<S1>(c); break;
+    case 1: res = runCase<S3>(c); break;
+    default: res = runCase<VV>(c); break;
+  }
+  // the communicators, interfaces and containers of the case are gone now
+  std::string reqVerdict = dv_req_case_end();
+  {
+    // a wrong value seen by some rank is the primary evidence; the request discipline explains it
+    int valueFail = res.oracle.rfind("ok", 0) == 0 ? 0 : 1, anyValueFail = 0;
+    dv_sched_seed(0);
+    MPI_Allreduce(&valueFail, &anyValueFail, 1, MPI_INT, MPI_MAX, MPI_COMM_WORLD);
+    auto all = allgatherStrings(reqVerdict);
+    std::string firstReq;
+    for (auto& v : all) if (firstReq.empty()) firstReq = v;
+    if (valueFail && !firstReq.empty()) res.oracle += "  [cause: " + firstReq + "]";
+    else if (!anyValueFail && !reqVerdict.empty()) res.oracle = "FAIL " + reqVerdict;
+  }
+  if (rank == 0) {
+    static long ls = 0, lr = 0, la = 0;
+    stat("requests_tracked_sends_rank0", dv_req_sends() - ls);
+    stat("requests_tracked_receives_rank0", dv_req_recvs() - lr);
+    stat("request_buffer_audits_rank0", dv_req_audits() - la);
+    ls = dv_req_sends();
+    lr = dv_req_recvs();
+    la = dv_req_audits();
+  }
+  return res;
 }
 
 // ------------------------------------------------------------------------------------------------------------------
@@ -749,7 +898,33 @@ static std::string gen(Rng& rng, long, const Args& args) {
   bool cgs = !dt && !add && pay[0] == 's' && rng.coin(1, 4);
   std::string cont = rng.coin() ? "c1" : "c2";
   static const char* rds[] = {"f", "b", "ff", "fb", "bf", "bb", "fbf", "ffb", "bfb"};
-  std::string rounds = rds[rng.below(rng.coin(1, 4) ? 2 : 9)];
+  // schedules and user activity between the communications of one build: a rank that is late for a communication
+  // (l<r>), new values in the containers (m<k>).  The classical exposure of a sendRecv that returns too early is
+  // `l<q>.f.m<k>.f`: q is late for the first forward, its neighbours run ahead, assign new values and gather again.
+  auto decorate = [&](const std::string& fb) {
+    std::vector<std::string> items;
+    for (char ch : fb) items.push_back(std::string(1, ch));
+    const size_t n = fb.size();
+    std::vector<std::string> before(n + 1);  // items inserted before communication i (n: after the last)
+    if (P > 1 && rng.coin(1, 5)) {
+      size_t i = rng.below(n);
+      before[i] += "l" + std::to_string(rng.below(P)) + ".";
+      if (i + 1 < n && rng.coin(3, 4)) before[i + 1] += "m" + std::to_string(rng.below(10)) + ".";
+      if (rng.coin(1, 6)) before[rng.below(n)] += "l" + std::to_string(rng.below(P)) + ".";
+    }
+    if (n > 1 && rng.coin(1, 5)) before[1 + rng.below(n - 1)] += "m" + std::to_string(rng.below(10)) + ".";
+    if (rng.coin(1, 25)) before[0] += "m" + std::to_string(rng.below(10)) + ".";
+    std::string out;
+    bool lastWasComm = false;
+    for (size_t i = 0; i < n; ++i) {
+      if (!before[i].empty()) { if (!out.empty() && lastWasComm) out += "."; out += before[i]; lastWasComm = false; }
+      out.push_back(fb[i]);
+      lastWasComm = true;
+    }
+    return out;
+  };
+  std::string roundsPlain = rds[rng.below(rng.coin(1, 4) ? 2 : 9)];
+  std::string rounds = decorate(roundsPlain);
   int nRebuild = rng.coin(3, 10) ? 1 + (int)rng.below(rng.coin(1, 3) ? 3 : 1) : 0;
 
   int nG = (int)rng.range(0, thorough ? 12 : 8);
@@ -815,7 +990,7 @@ static std::string gen(Rng& rng, long, const Args& args) {
   // message sizes (one attribute more or less), sometimes for unrelated sets
   {
     int cs = S, ct = T;
-    size_t nComm = rounds.size();
+    size_t nComm = roundsPlain.size();
     for (int k = 0; k < nRebuild; ++k) {
       int kind2 = (int)rng.below(6);
       int ns = cs, nt = ct;
@@ -827,7 +1002,8 @@ static std::string gen(Rng& rng, long, const Args& args) {
       if (rng.coin(1, 12)) more = "";
       if (nComm + more.size() > 8) more = more.substr(0, 8 - nComm);
       nComm += more.size();
-      rounds += std::string(".") + (rng.coin(2, 3) ? "r" : "n") + maskStr(ns) + "-" + maskStr(nt) + (more.empty() ? "" : "." + more);
+      rounds += std::string(".") + (rng.coin(2, 3) ? "r" : "n") + maskStr(ns) + "-" + maskStr(nt) +
+                (more.empty() ? "" : "." + decorate(more));
       cs = ns;
       ct = nt;
     }
@@ -838,8 +1014,19 @@ static std::string gen(Rng& rng, long, const Args& args) {
 }
 
 int main(int argc, char** argv) {
+  // Open MPI, shared memory: with the default eager limit (4 kB) the small messages of the cases are copied out of the send
+  // buffer when the send is posted; a low limit makes every message of >= 16 bytes a rendezvous (payload read from the
+  // send buffer when the receive is matched), the transport large production messages get.  DV_C05_EAGER=0 leaves the
+  // default.  (An MCA parameter the installed MPI does not know is ignored.)
+  {
+    const char* e = std::getenv("DV_C05_EAGER");
+    std::string v = e ? e : "64";
+    if (v != "0") setenv("OMPI_MCA_btl_vader_eager_limit", v.c_str(), 0);
+  }
   Dune::MPIHelper::instance(argc, argv);
+  MPI_Comm_dup(MPI_COMM_WORLD, &gSide);
   std::cout << std::unitbuf;
+  gLagUs = parseArgs(argc, argv).get("lag-us", 4000);
   {
     // number of items the translator (tools/translators/tr_c05.py) could not read from the source (fail-soft)
     Args a = parseArgs(argc, argv);
